@@ -504,7 +504,7 @@ def check_after(ctx, tag, opname, result, existing, caller, info):
         for ax in ([cont] if isinstance(cont, IndexBase) else [getattr(cont, 'index', None), getattr(cont, 'columns', None)]):
             if isinstance(ax, sf.IndexHierarchy) and len(ax) <= 12:
                 try:
-                    labs_ = [tuple(t) for t in ax.values.tolist()]
+                    labs_ = [tuple(t) for t in ax]      # the labels as the axis itself presents them (NOT .values.tolist(): that turns a datetime64 label into a date object, which a plain Index of datetime64 does not look up)
                     pos_ = [ax.loc_to_iloc(t) for t in labs_]
                     ok_ = pos_ == list(range(len(labs_))) and all(t in ax for t in labs_)
                 except Exception:
